@@ -26,7 +26,7 @@ describe('C33',
          'asarray copies iff asked; (layout) the running offsets in _initialize_data/_get_local_views tile '
          'the array contiguously from 0 with each variable\'s own size; (view) _VecData ranges/size and '
          'set_view produce basic-slice views (no copies) of the array that is finally bound to _data; '
-         '(subvec) a sub-vector, its scaler and its adder are the same slice of the parent; (who) _data, '
+         '(assign) set_val/set_vec/set_vals/set_var store into the full (complex) storage, never through the real view; (subvec) a sub-vector, its scaler and its adder are the same slice of the parent; (who) _data, '
          '_views, .view and .flat are only rebound by the tabled initialisers; (roundtrip) = C08.vec. '
          'Does not decide floating point round-off, PETSc/MPI vectors or the indexer classes.',
          ['PETScVector (MPI only) is out of scope', 'System._name_shape_iter yields the variables of a '
@@ -305,6 +305,8 @@ def self_kind(e):
         return None
     if astx.path(e) == 'self._data':
         return 'raw'
+    if astx.path(e) == 'self._data.real':
+        return 'realview'
     return None
 
 
@@ -368,12 +370,12 @@ def effects(st):
                                c.args[0]))
             elif astx.path(astx.receiver(c)) == 'self' and m == 'set_val' and not c.keywords and \
                     1 <= len(c.args) <= 2:
-                out.append(Eff('set', ev, None, 'live', c.args[1] if len(c.args) == 2 else None, c.args[0]))
+                out.append(Eff('set', ev, None, 'delegate', c.args[1] if len(c.args) == 2 else None, c.args[0]))
             elif astx.path(astx.receiver(c)) == 'self' and m == 'set_vec' and not c.keywords and \
                     len(c.args) == 1 and isinstance(c.args[0], ast.Name):
                 v = ast.Call(func=ast.Attribute(value=_copy(c.args[0]), attr='asarray', ctx=ast.Load()),
                              args=[], keywords=[])
-                out.append(Eff('set', ev, None, 'live', None, v))
+                out.append(Eff('set', ev, None, 'delegate', None, v))
             else:
                 out.append(Eff('other', ev))
         elif ev.kind == 'return':
@@ -446,7 +448,20 @@ def check_update(chk, effs, kind, op, want_idx, val_check, allow_raw=False):
     if e.skind == 'copy':
         chk.bad(st, 'operates on a copy of the data, the vector itself is unchanged', 'copy')
         return
-    if e.skind == 'raw' and not allow_raw:
+    if kind == 'set' and e.skind in ('live', 'realview'):
+        # an assignment replaces the selected entries completely (NumPy: data[idx] = val gives val+0j);
+        # asarray() is only the real view of a complex-allocated vector while complex step is off
+        touches_imag = any(isinstance(n, ast.Attribute) and n.attr == 'imag'
+                           for x in effs for y in (x.ev.a, x.ev.b) if isinstance(y, ast.AST) for n in ast.walk(y))
+        if touches_imag:
+            chk.unsure(st, 'assignment through the real view with separate handling of the imaginary part')
+        else:
+            chk.bad(st, f'assigns through `{astx.src(e.ev.a.value) if isinstance(e.ev.a, ast.Subscript) else "asarray()"}`'
+                    ', the REAL view of a complex-allocated vector while complex step is off: self._data.imag '
+                    'keeps stale values from an earlier complex-step phase (store into self._data[...])',
+                    'assign-imag')
+        return
+    if e.skind == 'realview' or (e.skind == 'raw' and not allow_raw):
         chk.unsure(st, 'operates on self._data instead of self.asarray()')
         return
     if want_idx is None:
@@ -1800,6 +1815,34 @@ def who(repo, out):
                                     'store `[...] =`)', key=f'rebind-{t.attr}')
 
 
+# --------------------------------------------------------------------------- assign (named stores hit the full storage)
+@rule('C33.assign', floor=2)
+def assign(repo, out):
+    """set_vals/set_var assign through the (complex) views of _data, never through a `.real` projection."""
+    for qn in ('Vector.set_vals', 'Vector.set_var'):
+        fn = repo.func(VEC, qn)
+        chk = Chk(out, fn, qn.split('.')[1])
+        stores = []
+        for st in astx.walk_stmts(fn.node.body):
+            if isinstance(st, ast.Assign):
+                for t in astx.assigned_targets(st):
+                    if isinstance(t, ast.Subscript) and any(
+                            isinstance(x, ast.Attribute) and x.attr in _DATA_ATTRS for x in _spine(t)):
+                        stores.append((st, t))
+            elif isinstance(st, ast.AugAssign) and isinstance(st.target, ast.Subscript) and any(
+                    isinstance(x, ast.Attribute) and x.attr in _DATA_ATTRS for x in _spine(st.target)):
+                chk.bad(st, f'`{astx.src(st)}` accumulates where the method name promises an assignment',
+                        'assign-operator')
+        for st, t in stores:
+            if any(isinstance(x, ast.Attribute) and x.attr == 'real' for x in _spine(t)):
+                chk.bad(st, f'`{astx.src(t)}` assigns through the real projection: the imaginary part of a '
+                        'complex-allocated vector keeps stale values (NumPy data[idx] = val gives val+0j)',
+                        'assign-imag')
+        if not stores:
+            chk.unsure(fn.node, 'no store through a named view found')
+        chk.ok(fn.node, f'{len(stores)} store(s) through .flat/.view of the full storage')
+
+
 # --------------------------------------------------------------------------- roundtrip (= C08.vec)
 @rule('C33.roundtrip', floor=3)
 def roundtrip(repo, out):
@@ -1847,6 +1890,10 @@ selftest(
            'C33.opname'),
     Mutant('set-val-accumulates', DVEC, "        self._data[idxs] = val", "        self._data[idxs] += val", 'C33.opname'),
     Mutant('set-val-rebinds', DVEC, "        self._data[idxs] = val", "        self._data = val", ['C33.opname', 'C33.who']),
+    Mutant('set-val-real-view', DVEC, "        self._data[idxs] = val", "        data = self.asarray()\n        data[idxs] = val",
+           'C33.opname'),
+    Mutant('set-val-dot-real', DVEC, "        self._data[idxs] = val", "        self._data.real[idxs] = val", 'C33.opname'),
+    Mutant('set-vec-real-view', DVEC, "        self.set_val(vec.asarray())", "        self.asarray()[:] = vec.asarray()", 'C33.opname'),
     Mutant('set-val-default', DVEC, "    def set_val(self, val, idxs=_full_slice):", "    def set_val(self, val, idxs=slice(1)):",
            'C33.opname'),
     Mutant('set-vec-self', DVEC, "        self.set_val(vec.asarray())", "        self.set_val(self.asarray())", 'C33.opname'),
@@ -1940,6 +1987,13 @@ selftest(
            ['C33.who', 'C33.opname']),
     Mutant('cs-mode-reallocates', VEC, "        self._under_complex_step = active", "        self._under_complex_step = active\n        self._data = self._data.astype(complex if active else float)",
            'C33.who'),
+    # ---- assign
+    Mutant('set-vals-real', VEC, "            vinfo.flat[:] = val if vinfo.is_scalar else val.ravel()",
+           "            vinfo.flat.real[:] = val if vinfo.is_scalar else val.ravel()", 'C33.assign'),
+    Mutant('set-var-real', VEC, "            vinfo.flat[idxs.flat()] = value.flat", "            vinfo.flat.real[idxs.flat()] = value.flat",
+           'C33.assign'),
+    Mutant('set-vals-accumulates', VEC, "            vinfo.flat[:] = val if vinfo.is_scalar else val.ravel()",
+           "            vinfo.flat[:] += val if vinfo.is_scalar else val.ravel()", 'C33.assign'),
     # ---- roundtrip (C08.vec)
     Mutant('scale-reverse-order', DVEC, "        data *= scaler\n        if adder is not None:  # nonlinear only\n            data += adder",
            "        if adder is not None:  # nonlinear only\n            data += adder\n        data *= scaler", 'C33.roundtrip'),
@@ -1959,6 +2013,7 @@ selftest(
     Twin('twin-scal-vec-commuted', DVEC, "        data += (val * vec.asarray())", "        other = vec.asarray()\n        data += other * val"),
     Twin('twin-dot-method', DVEC, "        return np.dot(self.asarray(), vec.asarray())", "        a = self.asarray()\n        return a.dot(vec.asarray())"),
     Twin('twin-norm-sqrt', DVEC, "        return np.linalg.norm(self.asarray())", "        x = self.asarray()\n        return np.sqrt(np.dot(x, x))"),
+    Twin('twin-set-val-local-raw', DVEC, "        self._data[idxs] = val", "        data = self._data\n        data[idxs] = val"),
     Twin('twin-set-val-asarray', DVEC, "        self.set_val(vec.asarray())", "        self._data[:] = vec.asarray()"),
     Twin('twin-asarray-ifexp', DVEC, "        if copy:\n            return arr.copy()\n\n        return arr", "        return arr.copy() if copy else arr"),
     Twin('twin-asarray-flipped', DVEC, "        if self._under_complex_step:\n            arr = self._data\n        else:\n            arr = self._data.real\n",
